@@ -33,8 +33,10 @@ type C08Scenario struct {
 	// TZs[i]: time zone of the processes of schedule i+1 (the canonical run uses the default zone)
 	TZs []string `json:"tzs,omitempty"`
 	// LowFD[i]: the processes of schedule i+1 run under a descriptor limit of 32
-	LowFD  []bool `json:"low_fd,omitempty"`
-	Remove string `json:"remove,omitempty"` // -r for api / call / rcall: package names to strip, possibly one a prefix of another
+	LowFD []bool `json:"low_fd,omitempty"`
+	// CountTop+1: the row limit given to `coca count -t`
+	CountTop int    `json:"count_top,omitempty"`
+	Remove   string `json:"remove,omitempty"` // -r for api / call / rcall: package names to strip, possibly one a prefix of another
 }
 
 type C08 struct{}
@@ -67,9 +69,11 @@ func (C08) Generate(t *tape.Tape, tier string) interface{} {
 			methods = append(methods, f.Pkg+"."+f.Name+"."+m.Name)
 		}
 	}
+	hubTarget := ""
 	if t.Bool(1, 8) {
 		// a hub class with many collaborators: fan-out beyond any small threshold (counts matter, not only shapes)
-		n := t.Int(31, 36)
+		n := t.Int(31, 40)
+		fanIn := t.Bool(1, 2) // every collaborator also calls one utility method: fan-in beyond small thresholds
 		var hub []string
 		hub = append(hub, "package hub;", "", "public class Hub {", "    public void fanOut() {")
 		for k := 1; k <= n; k++ {
@@ -79,11 +83,18 @@ func (C08) Generate(t *tape.Tape, tier string) interface{} {
 			if k < n && t.Bool(1, 2) {
 				call = fmt.Sprintf("        C%02d.run();\n", k+1)
 			}
+			if fanIn {
+				call += "        Util.fmt();\n"
+			}
 			text := fmt.Sprintf("package hub;\n\npublic class C%02d {\n    public static void run() {\n%s%s\n}\n", k, call, body)
 			sc.Files = append(sc.Files, SrcFile{ID: fmt.Sprintf("h%d", k), Path: fmt.Sprintf("hub/C%02d.java", k), Text: text})
 		}
 		hub = append(hub, "    }", "}")
 		sc.Files = append(sc.Files, SrcFile{ID: "hub", Path: "hub/Hub.java", Text: strings.Join(hub, "\n") + "\n"})
+		if fanIn {
+			sc.Files = append(sc.Files, SrcFile{ID: "hutil", Path: "hub/Util.java", Text: "package hub;\n\npublic class Util {\n    public static void fmt() {\n    }\n}\n"})
+			hubTarget = "hub.Util.fmt"
+		}
 	}
 	for _, f := range gen.GenTestClasses(t, pkgs) {
 		sc.Files = append(sc.Files, SrcFile{ID: f.ID, Path: f.Path, Text: f.Text})
@@ -93,7 +104,10 @@ func (C08) Generate(t *tape.Tape, tier string) interface{} {
 	if len(methods) > 0 {
 		sc.Root = methods[t.Pick(len(methods))]
 		sc.Target = methods[t.Pick(len(methods))]
-		if t.Bool(1, 5) {
+		if hubTarget != "" {
+			sc.Target = hubTarget
+			sc.Root = "hub.Hub.fanOut"
+		} else if t.Bool(1, 5) {
 			// a short form (Class.method or the bare method name) that several declared methods end in:
 			// it is nobody's full name, so every run must treat it alike
 			short := func(full string) string {
@@ -183,6 +197,7 @@ func (C08) Generate(t *tape.Tape, tier string) interface{} {
 		sc.Schedules = append(sc.Schedules, s)
 		sc.TZs = append(sc.TZs, []string{"", "", "Asia/Tokyo", "America/Los_Angeles", "Pacific/Kiritimati"}[t.Pick(5)])
 		sc.LowFD = append(sc.LowFD, t.Bool(1, 4))
+		sc.CountTop = t.Pick(5)
 	}
 	return sc
 }
@@ -483,6 +498,39 @@ func canonTableKeyed(text string, keyCol int) string {
 	return strings.Join(keys, ",") + "\n" + canonKeyed(keys, rows)
 }
 
+// canonTop: a table cut to its first rows by a sort on column keyCol: the rows whose key differs
+// from the last row's key are determined (order free inside ties); of the rows that tie with the
+// last one only their number is, because the cut may fall inside the tie.
+func canonTop(text string, keyCol int) string {
+	var keys, rows []string
+	first := true
+	for _, l := range strings.Split(text, "\n") {
+		if !strings.HasPrefix(l, "|") || strings.Trim(l, "|-+ ") == "" {
+			continue // not a table line, or a rule line (its width follows the widest cell)
+		}
+		if first {
+			first = false // header
+			continue
+		}
+		cells := strings.Split(strings.Trim(l, "|"), "|")
+		k := ""
+		if keyCol < len(cells) {
+			k = strings.TrimSpace(cells[keyCol])
+		}
+		keys = append(keys, k)
+		rows = append(rows, strings.Join(strings.Fields(l), " "))
+	}
+	if len(rows) == 0 {
+		return "no rows"
+	}
+	last := keys[len(keys)-1]
+	cut := len(rows)
+	for cut > 0 && keys[cut-1] == last {
+		cut--
+	}
+	return strings.Join(keys, ",") + "\n" + canonKeyed(keys[:cut], rows[:cut]) + fmt.Sprintf("\n%d rows with key %s", len(rows)-cut, last)
+}
+
 func canonCommitsJSON(text string) string {
 	var cs []struct {
 		Rev, Author, Date, Message string
@@ -682,10 +730,13 @@ func (C08) Run(ctx *sim.RunCtx, data json.RawMessage) (*sim.Outcome, error) {
 		{"api", []string{"api", "-p", "src", "-f"}, []string{"apis.json", "api.dot", "api.csv"}},
 		{"api-sort", []string{"api", "-p", "src", "-f", "-s", "-c"}, []string{"api.csv"}},
 		{"api-aggregate", []string{"api", "-p", "src", "-f", "-a", sc.ApiPrefix}, []string{"api.dot", "api.csv"}},
+		// without -f: the list is taken from the apis.json the previous command left behind
+		{"api-cached", []string{"api", "-p", "src", "-c"}, []string{"api.csv"}},
 		{"api-remove", []string{"api", "-p", "src", "-f", "-c", "-r", sc.Remove}, []string{"api.dot", "api.csv"}},
 		{"call-remove", []string{"call", "-c", sc.Root, "-r", strings.Split(sc.Remove, ",")[0]}, []string{"call.dot"}},
 		{"rcall-remove", []string{"rcall", "-c", sc.Target, "-r", strings.Split(sc.Remove, ",")[0]}, []string{"rcall.dot"}},
 		{"count", []string{"count"}, nil},
+		{"count-top", []string{"count", "-t", fmt.Sprint(1 + sc.CountTop)}, nil},
 		{"evaluate", []string{"evaluate"}, []string{"evaluate.json"}},
 		{"concept", []string{"concept"}, nil},
 		{"cloc", []string{"cloc", "tree", "--by-directory"}, []string{"cloc.csv"}},
@@ -820,6 +871,8 @@ func (C08) Run(ctx *sim.RunCtx, data json.RawMessage) (*sim.Outcome, error) {
 				arte[key] = cv
 			}
 			switch c.name {
+			case "count-top":
+				arte[c.name+".table"] = canonTop(r.Output, 0)
 			case "count", "concept", "evaluate":
 				arte[c.name+".table"] = r.Output
 			case "api-remove":
@@ -829,11 +882,39 @@ func (C08) Run(ctx *sim.RunCtx, data json.RawMessage) (*sim.Outcome, error) {
 				arte[c.name+".table"] = strings.Join(ls, "\n")
 			}
 		}
+		// the same `coca api -p src -c` in a directory without history (same model, no apis.json):
+		// fixed tree and arguments, so the same rows as the run above that followed `api -a`
+		if si == 0 && arte["api-cached.outcome"] == "ok" {
+			wc := filepath.Join(ctx.Dir, "wcold")
+			os.MkdirAll(filepath.Join(wc, "coca_reporter"), 0755)
+			for _, f := range sc.Files {
+				p := filepath.Join(wc, "src", filepath.FromSlash(f.Path))
+				os.MkdirAll(filepath.Dir(p), 0755)
+				os.WriteFile(p, []byte(f.Text), 0644)
+			}
+			for _, fn := range []string{"deps.json", "identify.json"} {
+				if b, err := os.ReadFile(filepath.Join(w, "coca_reporter", fn)); err == nil {
+					os.WriteFile(filepath.Join(wc, "coca_reporter", fn), b, 0644)
+				}
+			}
+			resc, err := ctx.Run(&sim.Proc{Schedule: s, Cwd: wc, Ops: []sim.Op{{Op: "cli", Args: map[string]interface{}{"args": []string{"api", "-p", "src", "-c"}}}}})
+			if err != nil {
+				return nil, err
+			}
+			if resc.Completed(0) && resc.Records[0].OK {
+				if b, err := os.ReadFile(filepath.Join(wc, "coca_reporter", "api.csv")); err == nil {
+					out.Faults["durable-reports-carried-over"]++
+					if cold := canonCsv(string(b), false); cold != arte["api-cached.api.csv"] {
+						add("history/api-after-aggregate-differs-from-fresh-directory", fmt.Sprintf("`coca api -p src -c` after `coca api -f -a %s` in the same working directory lists other rows than in a fresh directory\n with history: %s\n fresh:        %s", sc.ApiPrefix, clip(arte["api-cached.api.csv"], 600), clip(cold, 600)), map[string]string{"clause": "api-history"})
+					}
+				}
+			}
+		}
 		// `coca git` in a real repository (one process per report)
 		if repoDir != "" {
 			os.RemoveAll(filepath.Join(repoDir, "coca_reporter"))
-			for _, gc := range [][2]string{{"git-basic", "-b"}, {"git-team", "-t"}, {"git-top", "-o"}, {"git-summary", "-m"}} {
-				resg, err := ctx.Run(&sim.Proc{Schedule: s, Cwd: repoDir, TZ: tz, MaxOpenFiles: maxFD, Ops: []sim.Op{{Op: "cli", Args: map[string]interface{}{"args": []string{"git", gc[1]}, "read": []string{"coca_reporter/commits.json"}}}}})
+			for _, gc := range [][2]string{{"git-basic", "-b"}, {"git-team", "-t"}, {"git-top", "-o"}, {"git-summary", "-m"}, {"git-team-cut", "-t -f -s 3"}, {"git-top-cut", "-o -f -s 2"}} {
+				resg, err := ctx.Run(&sim.Proc{Schedule: s, Cwd: repoDir, TZ: tz, MaxOpenFiles: maxFD, Ops: []sim.Op{{Op: "cli", Args: map[string]interface{}{"args": append([]string{"git"}, strings.Fields(gc[1])...), "read": []string{"coca_reporter/commits.json"}}}}})
 				if err != nil {
 					return nil, err
 				}
@@ -853,6 +934,8 @@ func (C08) Run(ctx *sim.RunCtx, data json.RawMessage) (*sim.Outcome, error) {
 					arte["git-cli.commits.json"] = canonCommitsJSON(r.Files["coca_reporter/commits.json"])
 				case "git-team", "git-top":
 					arte[gc[0]+".table"] = canonTableKeyed(r.Output, 1)
+				case "git-team-cut", "git-top-cut":
+					arte[gc[0]+".table"] = canonTop(r.Output, 1)
 				default:
 					secs := strings.Split(r.Output, "=====================\n")
 					sort.Strings(secs)
